@@ -7,15 +7,17 @@ Keeps the change in /verif/seeded/<PROP>-<n>/ (patch.diff, demo_test.go, meta.js
 import sys, os, re, json, shutil, subprocess
 prop, n = sys.argv[1], sys.argv[2]
 extra = sys.argv[3:]
-src = f'/tmp/seed-{prop}/out'
+rnd = os.environ.get('SEED_ROUND', '1')
+src = f'/tmp/seed-{prop}/out' if rnd == '1' else f'/tmp/seed{rnd}-{prop}/out'
+label = f'{prop}-{n}' if rnd == '1' else f'{prop}-r{rnd}-{n}'
 patch, demo = f'{src}/change_{n}.diff', f'{src}/demo_{n}_test.go'
 env = dict(os.environ, GOFLAGS='-mod=mod', GOPROXY='off', GOSUMDB='off', GOTOOLCHAIN='local')
 def sh(cmd, cwd=None, e=env, timeout=1800):
     r = subprocess.run(cmd, shell=True, cwd=cwd, env=e, capture_output=True, text=True, timeout=timeout)
     return r.returncode, r.stdout + r.stderr
 if not (os.path.exists(patch) and os.path.exists(demo)):
-    print(f'{prop}-{n}: missing files'); sys.exit(3)
-d = f'/root/mut/seed-{prop}-{n}'
+    print(f'{label}: missing files'); sys.exit(3)
+d = f'/root/mut/seed-{label}'
 shutil.rmtree(d, ignore_errors=True); os.makedirs('/root/mut', exist_ok=True)
 shutil.copytree('/repo', d, ignore=shutil.ignore_patterns('.git'))
 sh('git init -q .', d)
@@ -23,12 +25,12 @@ pkgline = re.search(r'^package\s+(\w+)', open(demo).read(), re.M).group(1)
 pk = pkgline[:-5] if pkgline.endswith('_test') else pkgline
 pkgdir = '.' if pk == 'ucfg' else pk
 demo_dst = os.path.join(d, pkgdir, f'zz_seed_demo_{n}_test.go')
-meta = {'property': prop, 'n': int(n), 'demo_package': pkgdir, 'confirmed': False, 'ran': []}
+meta = {'property': prop, 'n': int(n), 'round': int(rnd), 'demo_package': pkgdir, 'confirmed': False, 'ran': []}
 def finish(msg, keep=False):
     meta['result'] = msg
-    print(f'{prop}-{n}: {msg}')
+    print(f'{label}: {msg}')
     if keep:
-        out = f'/verif/seeded/{prop}-{n}'
+        out = f'/verif/seeded/{label}'
         os.makedirs(out, exist_ok=True)
         shutil.copy(patch, f'{out}/patch.diff'); shutil.copy(demo, f'{out}/demo_test.go')
         notes = f'{src}/notes.md'
